@@ -1397,6 +1397,10 @@ func (p *Parser) parseFormatStringOperator() (token.Token, string, string, error
 
 	formatted, err := p.fonts.FormatText(textToken.Literal, maxLineLength, cursorOverlapWidth, fontID, numLines)
 	if err != nil && p.enableEnvironmentErrors {
+		if fontIdToken.Type == "" {
+			// The font id wasn't written in format(). It came from the default settings.
+			fontIdToken = textToken
+		}
 		return token.Token{}, "", "", NewParseError(fontIdToken, err.Error())
 	}
 	return textToken, formatted, stringType, nil
